@@ -39,7 +39,8 @@ REQUIRED = ('showdowns', 'auto_mucks', 'auto_kills', 'twin_runs_compared',
             'side_pot_showdowns', 'multi_board_showdowns', 'hilo_showdowns',
             'allin_showdowns',
             'observer_query_points',
-            'trees_completed', 'explored_nodes')
+            'trees_completed', 'explored_nodes',
+            'forks')
 
 CUSTOMS = ('holdem8', 'plo8', 'greek', 'courchevel', 'draw5', 'badugi1',
            'stud5', 'razzdraw', 'random')
@@ -205,7 +206,7 @@ class ShowdownMonitor(Monitor):
                         t.show_or_muck_hole_cards(True)
             drain()
             for name, args, *_ in ctx.script:
-                if name == 'show_or_muck_hole_cards':
+                if name in ('show_or_muck_hole_cards', '__fork__'):
                     continue
                 getattr(t, name)(*driver.decode_args(args))
                 drain()
@@ -246,6 +247,8 @@ def cfg_filter(cfg, rng):
 
 
 def pol_tweak(pol, cfg, rng):
+    if rng.random() < 0.4:
+        pol['fork_p'] = 0.03     # continue on a deepcopy mid-hand
     pol['policy'] = rng.choice(['passive', 'passive', 'aggressive', 'allin',
                                 'uniform'])
     pol['muck'] = 'never'
